@@ -34,7 +34,7 @@ func (c09) Assumptions() []string {
 func (c09) Batches(tier string, seed uint64) []core.Batch {
 	var b []core.Batch
 	for _, k := range []string{"scalars", "lists", "nested", "ptr", "required", "pass"} {
-		b = append(b, spread(k, 3, tierN(tier, 500, 6000))...)
+		b = append(b, spread(k, 3, tierN(tier, 3000, 15000))...)
 	}
 	return b
 }
